@@ -16,6 +16,8 @@ ap.add_argument("sid"); ap.add_argument("src")
 ap.add_argument("--prop", required=True)
 ap.add_argument("--checks", nargs="*")
 ap.add_argument("--skip-tests", action="store_true")
+ap.add_argument("--skip-checks", action="store_true", help="only the demo + test-suite phase (scratch worktree; can run in parallel for several seeds)")
+ap.add_argument("--checks-only", action="store_true", help="only the checks phase (patch applied to /repo, restored afterwards)")
 ap.add_argument("--tier", default="quick")
 a = ap.parse_args()
 V, REPO = "/verif", "/repo"
@@ -26,10 +28,13 @@ for f in ("patch.diff", "demo.py", "notes.md"):
         shutil.copy(os.path.join(a.src, f), os.path.join(dst, f))
 meta = {"id": a.sid, "breaks_property": a.prop, "evaluated_at_repo_commit": subprocess.run(["git", "-C", REPO, "rev-parse", "--short", "HEAD"], capture_output=True, text=True).stdout.strip()}
 wt = f"/tmp/wt/eval_{a.sid}"
-subprocess.run(["git", "-C", REPO, "worktree", "remove", "--force", wt], capture_output=True)
-subprocess.run(["git", "-C", REPO, "worktree", "add", "-q", "--detach", wt, "HEAD"], check=True)
+if not a.checks_only:
+    subprocess.run(["git", "-C", REPO, "worktree", "remove", "--force", wt], capture_output=True)
+    subprocess.run(["git", "-C", REPO, "worktree", "add", "-q", "--detach", wt, "HEAD"], check=True)
 env = dict(os.environ, PYTHONPATH=wt, NUMBA_CACHE_DIR=f"{wt}/.numba", XDG_CACHE_HOME="/verif/.cache/xdg", OMP_NUM_THREADS="1")
 try:
+    if a.checks_only:
+        raise StopIteration
     def demo():
         r = subprocess.run(["/venv/bin/python", f"{dst}/demo.py"], capture_output=True, text=True, env=env, cwd=wt, timeout=3600)
         return r.returncode, (r.stdout + r.stderr)[-1500:]
@@ -60,8 +65,15 @@ try:
         print("tests:", meta["tests"])
         shutil.rmtree(scratch, ignore_errors=True)
         subprocess.run(["git", "-C", wt, "clean", "-fdq"], capture_output=True)
+except StopIteration:
+    pass
 finally:
     subprocess.run(["git", "-C", REPO, "worktree", "remove", "--force", wt], capture_output=True)
+if a.skip_checks:
+    old = json.load(open(f"{dst}/meta.json")) if os.path.exists(f"{dst}/meta.json") else {}
+    old.update(meta)
+    json.dump(old, open(f"{dst}/meta.json", "w"), indent=1)
+    sys.exit(0)
 # run checks against /repo with the patch applied
 assert subprocess.run(["git", "-C", REPO, "status", "--porcelain", "--untracked-files=no"], capture_output=True, text=True).stdout.strip() == "", "repo dirty"
 checks = a.checks or [f"C{i:02d}" for i in range(1, 21)]
